@@ -3,6 +3,23 @@
 import sys, os, subprocess, time
 R = "/work/random/repo/modules/random/"
 M = {
+ # oracle request whose context cannot be started stays queued ("log and continue", dequeue only on success)
+ "start_failure_not_dequeued": ("abci.go", """				ctx.Logger().Info(fmt.Sprintf("start service error : %s", err.Error()))
+			}
+
+			k.DequeueRandomRequest(ctx, lastBlockHeight, reqID)
+""", """				ctx.Logger().Info(fmt.Sprintf("start service error : %s", err.Error()))
+				continue
+			}
+
+			k.DequeueRandomRequest(ctx, lastBlockHeight, reqID)
+"""),
+ # ExportGenesis keeps only one pending request per due height
+ "export_one_per_height": ("genesis.go", """		if ok {
+			heightRequests.Requests = append(heightRequests.Requests, request)
+		} else {""", """		if ok {
+			return false
+		} else {"""),
  # drain the queue of `height` instead of `height-1`
  "drain_at_height": ("abci.go", "lastBlockHeight := ctx.BlockHeight() - 1", "lastBlockHeight := ctx.BlockHeight()"),
  # precision constant changed
@@ -59,7 +76,7 @@ for name in sys.argv[1:]:
         r = subprocess.run(["timeout", "3000", "/work/random/verif/check/run", "C18", "quick"], env=env, cwd="/work/random/verif",
                            stdout=subprocess.PIPE, stderr=subprocess.STDOUT, text=True)
         out = "\n".join(l for l in r.stdout.split("\n") if "conda" not in l.lower())
-        open("/work/random/scratch/mut/%s.log" % name, "w").write(out)
+        open("/work/random/mut-%s.log" % name, "w").write(out)
         print("MUT %s exit=%d wall=%.0fs\n%s" % (name, r.returncode, time.time() - t0, "\n".join(out.strip().split("\n")[-4:])), flush=True)
     finally:
         subprocess.run(["git", "-C", "/work/random/repo", "checkout", "--", "."])
